@@ -665,6 +665,7 @@ class Undecided(Exception):
 
 
 TEMP_CTORS = ('LetRefNode', 'ResultRefNode')
+MUST_BIND = {}      # temp id -> source paths, for temporaries created with the LetRefNode spelling
 WRAP_CTORS = ('EvalWithTempExprNode', 'LetNode')
 SIMPLE_PREDICATES = ('is_simple', 'try_is_simple')
 SIMPLE_ATTRS = ('is_literal', 'is_name')
@@ -679,6 +680,10 @@ def seq_of(v):
         srcs = [x for x, _ in flatten(v.expr)]
         if srcs and not all(len(x.path) == 1 for x in srcs):
             return (Ref(v.tid, {x.path for x in srcs}),)
+        if v.tid in MUST_BIND:
+            # spelled LetRefNode(...): a let-bound temporary must be bound by a LetNode/EvalWithTempExprNode even if its operand turned out
+            # to be side-effect free — nothing else generates the operand's code, and result() of the unbound reference crashes the compiler
+            return (Ref(v.tid, MUST_BIND[v.tid]),)
         return ()
     if isinstance(v, ListV):
         out = ()
@@ -890,7 +895,12 @@ class Prov:
         kws = [(k.arg, self.ev(k.value, env)) for k in n.keywords]
         if name in TEMP_CTORS:
             src = args[0] if args else dict(kws).get('expression', dict(kws).get('node'))
-            return Temp(seq_of(src) if src is not None else ())
+            t = Temp(seq_of(src) if src is not None else ())
+            if name == 'LetRefNode':
+                paths = {x.path for x, _ in flatten(t.expr)}
+                if paths and not all(len(p) == 1 for p in paths):
+                    MUST_BIND[t.tid] = frozenset(paths)
+            return t
         if name in WRAP_CTORS:
             vals = args + [v for k, v in kws]
             if len(vals) >= 2:
@@ -1311,6 +1321,8 @@ def _strip_seq(seq, paths):
             rest = x.paths - set(paths)
             if rest:
                 out += (Ref(x.tid, rest),)
+            elif x.tid in MUST_BIND:
+                out += (Ref(x.tid, MUST_BIND[x.tid]),)      # a LetRefNode reference stays a reference, whatever its operand is
         elif isinstance(x, RunSeq):
             sub = _strip_seq(x.seq, paths)
             if sub:
@@ -1595,11 +1607,11 @@ def _optimise(self, node, args):
 '''
 
 
-def rule_let_order(ctx):
+def rule_let_order(ctx, select=None, rid='LET-ORDER', floor=8):
     ix = ctx.index
-    r = Rule('LET-ORDER', 'tree rewrites of Optimize.py that move operands of the original node into temporaries (LetRefNode/ResultRefNode wrapped by '
+    r = Rule(rid, 'tree rewrites of Optimize.py that move operands of the original node into temporaries (LetRefNode/ResultRefNode wrapped by '
              'EvalWithTempExprNode/LetNode) evaluate those operands in their source order (temporaries outermost-first, then the rewritten expression), '
-             'unless the later-evaluated operand is known to be side-effect free (is_simple()/literal/name)', floor=8)
+             'unless the later-evaluated operand is known to be side-effect free (is_simple()/literal/name); a LetRefNode that the result refers to is bound by a LetNode', floor=floor)
     co = _ClassOrder(ix)
     m = ix.mod('Optimize')
     undecided = []
@@ -1613,6 +1625,8 @@ def rule_let_order(ctx):
         raise AnalysisError('only %d child attribute names found in the node classes' % len(child_attrs))
     for qn, owner, fn in ix.functions_of(m):
         if owner is None:
+            continue
+        if select is not None and not select(qn):
             continue
         uses = [n for n in walk_no_nested(fn) if isinstance(n, ast.Call) and (
             (isinstance(n.func, ast.Attribute) and n.func.attr in WRAP_CTORS) or (isinstance(n.func, ast.Name) and n.func.id in WRAP_CTORS))]
